@@ -73,6 +73,8 @@ impl Sync {
         };
         Meta::write(&shared.io_pool.page_pool(), &shared.meta_fd, &new_meta)?;
         self.sync_seqn += 1;
+        #[cfg(nomt_verif)]
+        let _ = crate::verif_hook::step("seqn_incr");
 
         if let Some(PanicOnSyncMode::PostMeta) = self.panic_on_sync {
             panic!("panic_on_sync is true (post-meta)");
